@@ -52,6 +52,8 @@ type Server struct {
 	listenerMutex sync.Mutex
 	// acceptLoops counts the running accept loops so that Stop can wait for them.
 	acceptLoops sync.WaitGroup
+	// lifecycleMutex serializes Start, Stop and Restart.
+	lifecycleMutex sync.Mutex
 	// requirePassAuthenticator is the authenticator registered for requirepass,
 	// requirePassMutex guards it.
 	requirePassAuthenticator auth.Authenticator
@@ -105,6 +107,12 @@ func (server *Server) RegisterExexutor(cmd string, executor Executor) {
 
 // Start starts the server.
 func (server *Server) Start() error {
+	server.lifecycleMutex.Lock()
+	defer server.lifecycleMutex.Unlock()
+	return server.start()
+}
+
+func (server *Server) start() error {
 	server.applyRequirePass()
 
 	err := server.ConnManager.Start()
@@ -138,6 +146,12 @@ func (server *Server) Start() error {
 
 // Stop stops the server.
 func (server *Server) Stop() error {
+	server.lifecycleMutex.Lock()
+	defer server.lifecycleMutex.Unlock()
+	return server.stop()
+}
+
+func (server *Server) stop() error {
 	// A connection that could not be closed cleanly (e.g. a TLS peer that has
 	// already reset it) must not keep the listeners open: the error is
 	// reported once the server has been stopped.
@@ -167,10 +181,14 @@ func (server *Server) Stop() error {
 
 // Restart restarts the server.
 func (server *Server) Restart() error {
-	if err := server.Stop(); err != nil {
+	// Lifecycle calls of different goroutines must not interleave: a Start between
+	// the two halves of another Stop reuses the accept loops' WaitGroup while it is waited for.
+	server.lifecycleMutex.Lock()
+	defer server.lifecycleMutex.Unlock()
+	if err := server.stop(); err != nil {
 		return err
 	}
-	return server.Start()
+	return server.start()
 }
 
 // open opens a listen socket.
